@@ -239,21 +239,23 @@ Definition consumes (k : nat) (legacy : bool) (dim : nat) : list rk :=
   | 2%nat => [Krandn; Krand]                       (* pCN  *)
   | 3%nat => if legacy then [Knormal; Kuniform] else [Knormal; Krand]   (* MALA *)
   | 5%nat => [Knormal; Krand]                      (* pCN with a cuqi Normal (independent components) prior *)
+  | 6%nat => [Krand]                               (* MH, proposal drawn by scipy (Cauchy): only u comes from numpy.random.* *)
+  | 7%nat => [Kuniform; Krand]                     (* MH with a Uniform proposal distribution *)
   | _ => [Knormal]                                 (* ULA  *)
   end.
 
 (* obs_star: the point(s) at which the implementation evaluated the target during the transition *)
 Definition check_mh (tol : Q) (T : target) (g : guard) (s : Q) (st : state) (xi : vec) (logu : ext)
-  (obs_star : vec) (obs : state) (obs_acc : bool) (log : list rk) (legacy : bool) : bool :=
+  (obs_star : vec) (obs : state) (obs_acc : bool) (log : list rk) (legacy : bool) (ck : nat) : bool :=
   let '(st', a) := mh_step (t_logd T) g s st xi logu in
   Bool.eqb a obs_acc && st_close tol obs st' && ql_close tol obs_star (mh_prop s (sx st) xi)
-  && rkl_eqb log (consumes 0 legacy (length (sx st))).
+  && rkl_eqb log (consumes ck legacy (length (sx st))).
 
 Definition check_mh_v (tol : Q) (T : target) (g : guard) (scales : vec) (st : state) (xi : vec) (logu : ext)
-  (obs_star : vec) (obs : state) (obs_acc : bool) (log : list rk) (legacy : bool) : bool :=
+  (obs_star : vec) (obs : state) (obs_acc : bool) (log : list rk) (legacy : bool) (ck : nat) : bool :=
   let '(st', a) := mh_step_v (t_logd T) g scales st xi logu in
   Bool.eqb a obs_acc && st_close tol obs st' && ql_close tol obs_star (mh_prop_v scales (sx st) xi)
-  && Nat.eqb (length scales) (length (sx st)) && rkl_eqb log (consumes 0 legacy (length (sx st))).
+  && Nat.eqb (length scales) (length (sx st)) && rkl_eqb log (consumes ck legacy (length (sx st))).
 
 (* loc/std: the arguments the proposal distribution was sampled with *)
 Definition check_cwmh (tol : Q) (T : target) (g : guard) (scales : vec) (st : state) (z : vec) (logus : list ext)
